@@ -61,6 +61,9 @@ func H_Conc() {
 	// a value group that registration 0 consumes (user code between the members);
 	// 3 makes registration 0 a multi-return constructor
 	wv := vrt.Pick("world", 0, vrt.Param("worlds", 4)-1)
+	if only := vrt.Param("world_only", -1); only >= 0 {
+		vrt.Assume(wv == only)
+	}
 	switch wv {
 	case 1:
 		w.N = 4
@@ -91,6 +94,16 @@ func H_Conc() {
 		vrt.Assume(e == nil)
 	}
 
+	// closeerr=1: instances with failing Close methods exist in the shared scope
+	// and in its child before the operations start (C12 under concurrency)
+	closeErr := vrt.Param("closeerr", 0) == 1
+	if closeErr {
+		kit.CloseErrMask = 0xF
+		shared.Get(kit.TypeS[0])
+		if child != nil {
+			child.Get(kit.TypeS[0])
+		}
+	}
 	// a scope that came and went just before the operations start (whatever a
 	// closed scope leaves behind in the provider is there when they run)
 	if gone, ge := p.CreateScope(nil); ge == nil {
@@ -98,7 +111,7 @@ func H_Conc() {
 	}
 
 	kit.YieldInCtor = true
-	kit.YieldInClose = true
+	kit.YieldInClose = vrt.Param("yieldclose", 1) == 1
 
 	var prog [2][]int
 	for g := 0; g < 2; g++ {
@@ -117,7 +130,16 @@ func H_Conc() {
 				}
 			}
 		}
-		vrt.Assume(closing == (os == 1))
+		if os == 4 {
+			// both operations are closing operations
+			for g := 0; g < 2; g++ {
+				for _, op := range prog[g] {
+					vrt.Assume(op == opCloseShared || op == opCloseProvider || op == opCancelShared || op == opCloseChild)
+				}
+			}
+		} else {
+			vrt.Assume(closing == (os == 1))
+		}
 	}
 	if noChild {
 		for g := 0; g < 2; g++ {
@@ -178,6 +200,12 @@ func H_Conc() {
 	sb, cb, rb := touches(1)
 	vrt.Finding("KF-C02-concurrent-first-resolution", sa&sb != 0 || ca&cb != 0 || ra&rb != 0)
 
+	// the context handed to the CreateScope operations: nil (inherit) or a context
+	// of the caller's that nobody ever cancels (then only Close can end the scope)
+	var newCtx context.Context
+	if vrt.Pick("cctx", 0, vrt.Param("cctx", 0)) == 1 {
+		newCtx = context.WithValue(context.Background(), valKey{8}, "caller")
+	}
 	var res [2][]*opResult
 	run := func(g int) {
 		for _, op := range prog[g] {
@@ -202,9 +230,9 @@ func H_Conc() {
 				case opResolveRoot:
 					r.val, r.err = p.Get(kit.TypeS[0])
 				case opCreateChild:
-					r.scope, r.err = shared.CreateScope(nil)
+					r.scope, r.err = shared.CreateScope(newCtx)
 				case opCreateTop:
-					r.scope, r.err = p.CreateScope(nil)
+					r.scope, r.err = p.CreateScope(newCtx)
 				case opCloseChild:
 					r.err = child.Close()
 				case opCloseShared:
@@ -283,7 +311,9 @@ func H_Conc() {
 			}
 			switch r.op {
 			case opCloseShared, opCloseProvider, opCloseChild:
-				vrt.Assert(r.err == nil, "C09.close_error", "Close returned", r.err)
+				if !closeErr {
+					vrt.Assert(r.err == nil, "C09.close_error", "Close returned", r.err)
+				}
 			case opCancelShared:
 			case opCreateChild, opCreateTop:
 				vrt.Assert(okOrDocumented(r.err), "C09.undocumented_error", "CreateScope returned", r.err)
@@ -409,6 +439,15 @@ func H_Conc() {
 			if err == nil {
 				vrt.Assert(kit.InfoOf(again) == in, "C02.lost_instance", "the scope handed out an instance of scoped registration", in.Slot, "and hands out another one afterwards")
 			}
+		}
+	}
+	// C12: of several Close calls on ONE node exactly the first reports the
+	// failures; calling Close again - also concurrently - returns nil
+	if closeErr && maxOps == 1 && prog[0][0] == prog[1][0] && len(res[0]) == 1 && len(res[1]) == 1 {
+		a, b := res[0][0], res[1][0]
+		if !a.panicked && !b.panicked && (a.op == opCloseShared || a.op == opCloseProvider || a.op == opCloseChild) {
+			vrt.Cover("same_node_closed_twice")
+			vrt.Assert(a.err == nil || b.err == nil, "C12.concurrent_close_two_reports", "two concurrent Close calls on one node both returned a disposal error:", a.err, "/", b.err)
 		}
 	}
 	// C02: scopes handed out concurrently are scopes of their own: a scoped
